@@ -43,3 +43,10 @@ func VerifExprAt(toks []token.Token, pos int) (ast.Expression, error, int) {
 
 // VerifDepth returns the current value of the recursion depth counter.
 func (p *Parser) VerifDepth() int { return p.depth }
+
+// VerifIsStatementStart reports whether recovery's synchronize() treats tok as a statement-starting keyword.
+func VerifIsStatementStart(tok token.Token) bool {
+	p := NewParser()
+	p.currentToken = tok
+	return p.isStatementStartingKeyword()
+}
